@@ -23,7 +23,11 @@ CASE_TIMEOUT = {"quick": 60, "thorough": 60}
 
 def plan(tier, seed):
     n = 3200 if tier == "quick" else 40000
-    return [{"gen": SOLVERS[i % len(SOLVERS)], "idx": i, "seed": seed} for i in range(n)]
+    cases = [{"gen": SOLVERS[i % len(SOLVERS)], "idx": i, "seed": seed} for i in range(n)]
+    # the active-set solver is cheap (one right-hand side) and its interesting paths (backtracking with a blocked variable, restart
+    # after a singular passive set) are rare events of warm starts: four times as many cases
+    cases += [{"gen": "active_set", "idx": n + i, "seed": seed} for i in range(3 * n // 4)]
+    return cases
 
 
 def floors(tier):
@@ -127,7 +131,8 @@ def run_case(case, ctx):
 
     ls = float(gen.choice(rs, [0.0, 0.0, 0.1, 1.0])) if solver != "active_set" else 0.0
     lr = float(gen.choice(rs, [0.0, 0.0, 0.1, 1.0])) if solver != "active_set" else 0.0
-    start = gen.choice(rs, ["cold", "cold", "warm-random", "warm-zero", "warm-solution"])
+    start = gen.choice(rs, ["cold", "cold", "warm-random", "warm-zero", "warm-solution"] if solver != "active_set" else
+                       ["cold", "warm-random", "warm-random", "warm-random", "warm-zero", "warm-solution"])
     Xref = reference(UtU, UtM, ls, lr)
     if start == "cold":
         x0 = None
